@@ -360,7 +360,7 @@ def check(sc):
 def make_harness(prop):
     def search(seed, budget):
         rnd = random.Random(seed)
-        n = 120 if budget == "quick" else 2500
+        n = 800 if budget == "quick" else 6000
         seen = set()
         for i in range(n):
             sc = gen_scenario(rnd, prop)
